@@ -161,6 +161,63 @@ func unions(run *ev.Run, set *bridge.Set, td *corpus.TypeDef, rng *rand.Rand) {
 	}
 }
 
+// enumFieldsOfRecords: an undeclared symbol read into an enum-typed FIELD (required, optional, or with a default) is
+// the unknown value there too; in particular the field's default must not take its place.
+func enumFieldsOfRecords(run *ev.Run, set *bridge.Set, td *corpus.TypeDef, rng *rand.Rand) {
+	s := set.Schema
+	full := td.FullName()
+	g := model.NewGen(s, rng)
+	for _, f := range s.AllFields(td) {
+		_, ftd := model.Resolve(s, f.Type)
+		if ftd == nil || ftd.Kind != "enum" || f.Type.Ref == "" {
+			continue
+		}
+		base := g.Value(corpus.R(full), 0)
+		tree, ok := refcodec.ToTree(s, corpus.R(full), base).(map[string]any)
+		if !ok {
+			continue
+		}
+		tree[f.Name] = "NOT_A_DECLARED_SYMBOL"
+		for _, fm := range []codec.Format{codec.FormatByName("json-compact"), codec.FormatByName("ror2-header")} {
+			var doc string
+			if fm.JSON {
+				doc = refcodec.TreeJSON(tree, rng)
+			} else {
+				doc = refcodec.TreeROR2(tree, refcodec.Header, rng)
+			}
+			run.Eval(1)
+			run.Count("enum_field_cases", 1)
+			q, err := codec.Decode(fm, set, full, doc)
+			kind := "required"
+			if f.Default != nil {
+				kind = "defaulted"
+			} else if f.Optional {
+				kind = "optional"
+			}
+			desc := map[string]any{"generation": GENERATION, "set": set.Name, "type": full, "field": f.Name, "field_kind": kind, "format": fm.Name, "document": trunc(doc), "error": errText(err)}
+			if isPanic(err) {
+				run.Violation(GENERATION+"/enum/decode/panic", desc)
+				continue
+			}
+			if err != nil {
+				run.Count("observed_only.unknown_symbol_error", 1)
+				continue
+			}
+			got, rerr := set.Read(q.Elem(), corpus.R(full))
+			if rerr != nil || got == nil {
+				continue
+			}
+			fv := got.Fields[f.Name]
+			desc["decoded_field"] = model.Show(fv)
+			if fv != nil && fv.Kind == model.KEnum && fv.S != "" {
+				run.Violation(GENERATION+"/enum/decode/unknown-symbol-became-another-symbol/"+kind+"-field", desc)
+			} else {
+				run.Distinct(fmt.Sprintf("enum|field|%s|%s|%s", full, f.Name, fm.Name))
+			}
+		}
+	}
+}
+
 func countClass(n int) string {
 	switch {
 	case n == 0:
@@ -731,6 +788,7 @@ func Run(run *ev.Run) {
 			case "fixed", "enum":
 				fixedAndEnums(run, set, td)
 			case "record":
+				enumFieldsOfRecords(run, set, td, rng)
 				// the partial-update legality rules are enforced by the patch package, which only the v2 module has:
 				// for the root module that clause is not exercised (it has no checker to monitor)
 				partialUpdates(run, set, td, rng, budget)
